@@ -40,8 +40,12 @@ def run(ctx):
         tpl = rng.choice(tpls)
         lines.append(mutate(rng, tpl.replace("{0}", rng.choice(AWKWARD)).replace("{}", rng.choice(AWKWARD))) + "\n")
     lines += [x + "\n" for x in linegen.V4_NEAR + linegen.V6_NEAR + linegen.V6_TAIL + linegen.V6_TAIL_UNLISTED]
-    lines.append("password " + "\"" * 3000 + "\n")
-    lines.append("key [" * 700 + "\n")
+    # characters that Python's case-insensitive matching equates with ASCII letters (dotted/dotless i, long s, Kelvin sign) inside listed words
+    for wv in ["\u0130ntentionet", "\u0131ntentionet", "INTENT\u0130ONET", "\u017fea", "\u017fEA-core", "sea\u017f", "intent\u0131onet.example", "\u212aayak", "clas\u017fified \u0130stanbul"]:
+        for pre in ("hostname ", "description link to ", ""):
+            lines.append(pre + wv + " up\n")
+    lines.append("password " + "\"" * 150 + "\n")
+    lines.append("key [" * 40 + "\n")
     rng.shuffle(lines)
     cases = []
     feats = [("pa", ["intentionet", "sea"], ["65000", "12345"])] * 3 + [("p", None, None), ("a", None, None), ("", ["sea"], None), ("", None, ["65000"]), ("u", None, None)]
@@ -49,6 +53,19 @@ def run(ctx):
     for k in range(0, len(lines), per):
         fl, w, n = feats[(k // per) % len(feats)]
         cases.append(textgen.pipe(lines[k:k + per], flags=fl, salt=SALTS[(k // per) % len(SALTS)], words=w, asnums=n))
+    # a netmask / wildcard / preserved address together with THE ordinary address whose image is that very value (any table keyed by value meets both)
+    import ipaddress
+    from . import ipref
+    for salt in ("S", "", "Q", "netconan"):
+        H = ipref.salter_of("md5:" + salt)
+        seeds = ipref.seeds_of("D", "-", ipref.DEFAULTS)
+        ls = []
+        for mval in ("0.0.255.255", "255.255.255.0", "255.255.0.0", "0.0.0.255", "255.255.255.252", "0.0.0.0", "255.255.255.255", "128.0.0.0"):
+            mi = int(ipaddress.IPv4Address(mval))
+            x = str(ipaddress.IPv4Address(ipref.image(H, 32, 8, seeds, mi, undo=True)))
+            ls += ["access-list 10 permit %s %s\n" % (x, mval), "ip route %s %s\n" % (mval, x), "network %s\n" % x, "mask %s\n" % mval, "host %s\n" % x]
+        for fl in ("a", "pa"):
+            cases.append(textgen.pipe(ls, flags=fl, salt=salt))
     # the model is exercised on the same stream (a raise on one side only is a disagreement); non-ASCII / oracle-less lines included
     m, i = ctx.correspond(cases, project=lambda c, o: "RAISED" if o.startswith("RAISED") else "ok", label="totality")
     for c, out in zip(cases, i):
@@ -63,7 +80,14 @@ def run(ctx):
                     bad = (l, o1)
                     break
             ctx.fail("processing a line raised %s" % (bad[1] if bad else out), {"line": bad[0] if bad else "<%d lines>" % len(ls), "flags": c[1], "salt": c[2], "words": c[3], "asnums": c[4]}, bad[1] if bad else out, label="impl")
-    ctx.evaluations = len(lines)
+    # very long runs of quotes / brackets: implementation only (the extracted regex engine needs minutes on them), every feature subset
+    import vlib
+    giants = ["password " + "\"" * 3000 + "\n", "key [" * 700 + "\n", "description " + "{[\"'" * 800 + "\n", "secret " + "'" * 2600 + "x" + "'" * 2600 + "\n"]
+    gcases = [textgen.pipe([g], flags=fl, salt=sa, words=w, asnums=n) for g in giants for (fl, w, n) in feats[2:] for sa in ("S", "")]
+    for c, out in zip(gcases, vlib.run_impl(gcases)):
+        if out.startswith("RAISED"):
+            ctx.fail("processing a line of %d characters raised %s" % (len(c[11]), out), {"line": c[11][:40] + "...", "flags": c[1], "salt": c[2]}, out, label="impl")
+    ctx.evaluations = len(lines) + len(gcases)
     ctx.distinct_nontrivial = len(set(lines))
     ctx.search_stats = {"hostile_lines": len(lines), "cases": len(cases), "salts": SALTS, "raised": sum(1 for o in i if o.startswith("RAISED"))}
     ctx.samples = [textgen.sample(cases[0], i[0], 0), textgen.sample(cases[0], i[0], 1)]
